@@ -445,8 +445,15 @@ impl ConfigActor {
 
     fn set_tmp_config(&mut self, key: ConfigKey, val: Arc<String>) {
         if let Some(v) = self.cache.get_mut(&key) {
+            let md5 = get_md5(&val);
+            if v.md5.as_str() == md5 {
+                // the routed value is already the current one (its committed entry was
+                // applied first): marking it tmp would make the next identical publish
+                // add a history entry that the leader does not have
+                return;
+            }
             v.tmp = true;
-            v.md5 = Arc::new(get_md5(&val));
+            v.md5 = Arc::new(md5);
             v.content = val;
         } else {
             let mut config_val = ConfigValue::new(val);
